@@ -229,6 +229,31 @@ pub fn c12_history(cfg: &CardCfg, nops: usize, seed: u64, prop: &str, rep: &mut 
     let mut tag = 1u32;
     let mut last_write: Option<(u32, usize)> = None;
     for opi in 0..nops {
+        // register queries in between: same answers as at the start, and no effect on what follows
+        if rng.chance(1, 14) {
+            let step = format!("op {} register query", opi);
+            rep.evaluations += 1;
+            let bad = match rng.below(3) {
+                0 => match rig.call(B_BASE, |sd| sd.num_blocks()) {
+                    Ok(Ok(b)) if b.0 as u64 == want_blocks => None,
+                    other => Some(format!("num_blocks gave {:?}", other.map(|x| x.map(|y| y.0)))),
+                },
+                1 => match rig.call(B_BASE, |sd| sd.num_bytes()) {
+                    Ok(Ok(b)) if b == want_blocks * 512 => None,
+                    other => Some(format!("num_bytes gave {:?}", other)),
+                },
+                _ => match rig.call(B_BASE, |sd| sd.erase_single_block_enabled()) {
+                    Ok(Ok(_)) => None,
+                    other => Some(format!("erase_single_block_enabled gave {:?}", other)),
+                },
+            };
+            rep.count("register_queries_between_transfers", 1);
+            if let Some(m) = bad {
+                rep.violate(v12("C12.capacity", "num_blocks/num_bytes", "between transfers", format!("{}: {}, the CSD encodes {} blocks [{}]", step, m, want_blocks, cfg.describe()), case(&step)));
+                drain_c14(&rig, cfg, "capacity", rep);
+                return;
+            }
+        }
         let n = match rng.below(10) {
             0 => 2,
             1 => 3 + rng.usize_below(6),
